@@ -273,7 +273,68 @@ def step(hist):
     return {"key": key, "viol": viols, "nontrivial": len(hist) >= 3, "outcome": key}
 
 
+ODD_NAMES = ["xlink:href", "xml:lang", "v-on:click", "x-bind.once", "@click", "2x", "aria-label", "data-a.b_c",
+             "\u00e9", ":is", "_", "on_", "A_B", "x:y_"]
+
+
+def fn_odd_live(case):
+    """unusual (but valid) attribute names through item assignment, update() and the tag helpers;
+    the rendered tag shows them under the normalised name."""
+    from htmltools import Tag
+    raw, v = case
+    viols = []
+    name = norm_name(raw)
+    nv = norm_value(v)
+    for how in ("setitem", "update-dict", "update-kw", "ctor-dict", "tag-function"):
+        try:
+            if how == "setitem":
+                t = Tag("div")
+                t.attrs[raw] = bv(v)
+            elif how == "update-dict":
+                t = Tag("div")
+                t.attrs.update({raw: bv(v)})
+            elif how == "update-kw":
+                t = Tag("div")
+                t.attrs.update(**{raw: bv(v)})
+            elif how == "ctor-dict":
+                t = Tag("div", {raw: bv(v)})
+            else:
+                from htmltools import tags
+                t = tags.span({raw: bv(v)}, "x")
+        except Exception as e:
+            viols.append((f"odd-name:{how}:raises", f"attribute name {raw!r}: {type(e).__name__}: {e}", {}))
+            continue
+        got = observed(t.attrs)
+        exp = [] if nv is None else [[name, nv[0], nv[1]]]
+        if got != exp:
+            viols.append((f"odd-name:{how}", f"attribute {raw!r} stored differently from the model", {"observed": got, "expected": exp}))
+        out = t.get_html_string()
+        if nv is not None and f' {name}="' not in out:
+            viols.append((f"odd-name:{how}:rendering", f"attribute {name!r} missing from the rendering", {"observed": out}))
+    return (True, None, viols, 5)
+
+
 def plan(tier):
+    return plan0(tier) + plan_odd(tier)
+
+
+def plan_odd(tier):
+    single = Map(Prod(Const(ODD_NAMES), Const(["v", True, None, ["H", "h"], 3])), lambda p: [list(p)])
+    two = Map(Prod(Const(ODD_NAMES), Const(["v"]), Const(ODD_NAMES + ["x"]), Const(["w", ["H", "h"]])),
+              lambda p: [[p[0], p[1]], [p[2], p[3]]])
+    cs = Alt(Map(Alt(single, two), lambda d: ([d], [])), Map(Prod(single, single), lambda c: ([c[0], c[1]], [])),
+             Map(single, lambda k: ([], k)))
+    return [
+        dict(kind="space", name="unusual-attribute-names-calls", space=cs, fn=fn_call,
+             note=f"constructor / consolidate_attrs calls over names {ODD_NAMES} (namespaces, framework directives, leading "
+                  "digit, non-ASCII, lone underscore): every one is accepted and normalised by the same rule"),
+        dict(kind="space", name="unusual-attribute-names-live", fn=fn_odd_live, execs=5,
+             space=Prod(Const(ODD_NAMES), Const(["v", True, None, ["H", "h"], 3, ""])),
+             note="the same names through attrs[name] = v, attrs.update(), Tag(...) and a tag function, and in the rendering"),
+    ]
+
+
+def plan0(tier):
     cs = call_space(tier)
 
     def ops_full(hist):
